@@ -427,3 +427,8 @@ func ForceOrder(t *rapid.T, st *Stmt) {
 	st.Order = nil
 	genOrder(t, st)
 }
+
+// GenAggrExpr draws an aggregate select field (possibly with arithmetic around it).
+func GenAggrExpr(t *rapid.T, kind StoreKind, pairs []Pair) *Node {
+	return genAggrExpr(t, &GenCtx{Kind: kind, Pairs: pairs})
+}
